@@ -119,3 +119,8 @@ check("C02", "exploration",
       "Trusted: the generator (harness/sg, ~1100 lines) - each construct is only generated where the specification fixes its meaning; no reference implementation exists on this machine, every deviation it reported was checked against the specification text before being treated as a defect. The claim covers the generated language and the rewrite set only.",
       "runtime monitoring: by-construction expected-output oracle over generated documents, spec.json as oracle over rewritten examples, reference models of the emphasis rules and of the inline chapter in lock-step over exhaustive short lines and paragraphs",
       "DESIGN.md section 4 / C02")
+
+# addenda of sessions 4-5 (appended to the level text of each check)
+_ADD = {'C01': ' Also: Parse with a caller-supplied parser.Context created before or after the instance and reused across instances, for every configuration.', 'C02': ' Tabs are written as whole indentation, directly after a container marker and inside the structural spaces that follow one; converters of other configurations convert documents in the same process.', 'C03': ' Histories through one recycled source buffer (harmless document, same-length hostile twin over it, first document again; payload and attribute-name slots) and truncated multi-byte sequences before every significant character are judged by the same tokenizer.', 'C04': ' Histories through one recycled source buffer put a dangerous URL of the same length at the offsets of a harmless one; letters are also spelled with characters that case mapping turns into ASCII.', 'C05': ' One document in five is also parsed with a parser.Context kept across documents.', 'C06': ' Histories include conversions from a recycled source buffer, twin payloads of every length in each remembered role, entity-table documents converted before and after everything else, and configurations whose options arrive by two routes (every reference output comes from another fresh build).', 'C07': ' One instance kind has a node renderer that fails on one code span, so that the error exits of Render run concurrently with successful conversions.', 'C09': ' Relation (i) is also evaluated for A without its final newline and for twin documents converted one after the other from one recycled buffer; relation (ii) also with documents that define a near-miss of a moved label.', 'C10': ' The relations are also evaluated at every step of histories through one recycled source buffer.', 'C11': ' Neighbour instances built from the same extension values and configured through the option route convert documents during the run; ASCII documents are compared after their wide-character code-point twin was converted; line endings and the white space before them are enumerated.', 'C14': ' Destinations that offer more than Write (string writer, buffer-like, own BufWriter), Render of subtrees, and failure histories (node renderer errors, double failures, nested Render) use the same enumeration and oracle; success must deliver the whole output.', 'C15': " Ids of every byte length up to 140, literal 'slug-K' headings before many equal ones, and automatic ids switched on through the heading parsers' own constructors are included.", 'C16': ' All 3^9 reference graphs over three footnotes, context histories (one parser.Context across a document with n footnotes and small ones with the same labels) and configurations whose id prefix arrives by two routes or is explicitly empty next to a prefix function are included.', 'C17': " One configuration wires the extension's exported parts by hand without its AST transformer.", 'C18': ' BlockReader.Reset to another segment list is an operation of the model.', 'C19': ' Filters holding thousands of fresh elements along an Extend chain are swept at boundary sizes.', 'C20': ' Probes that share a trigger with built-in parsers, with CanInterruptParagraph varied, compete for a line after a paragraph that stays or is transformed away.'}
+for _pid, _extra in _ADD.items():
+    CHECKS[_pid]["text"] += _extra
